@@ -103,7 +103,7 @@ def check(sc):
 
 
 def search(seed, budget):
-    n = 30 if budget == "quick" else 500
+    n = 300 if budget == "quick" else 3000
     for i in range(n):
         sc = {"seed": seed * 1000 + i}
         p = check(sc)
